@@ -69,14 +69,16 @@ Theorem C09_only_crypto_rand_is_imported :
              forallb (fun i => String.eqb i "crypto/rand" || existsb (String.eqb i) pure_allow) (snd f)) Source.src_imports = true /\
   map fst (filter (fun f => in_library (fst f) && existsb (String.eqb "crypto/rand") (snd f)) Source.src_imports) = ["util.go"].
 Proof. vm_compute. split; reflexivity. Qed.
-(** crypto/rand is read in exactly one function, through rand.Read (io.ReadFull semantics); every draw goes through it *)
+(** crypto/rand is read in exactly one function, through rand.Read (io.ReadFull semantics), and that function is called by the
+    bounded draw randomUint32n only (however many call sites it has there): every draw goes through it *)
 Theorem C09_single_entry_point :
   map (fun c => (Effects.c_func c, Effects.c_callee c))
       (filter (fun c => String.prefix "ext:crypto/rand" (Effects.c_callee c) || String.prefix "ext:math/rand" (Effects.c_callee c) ||
                         String.prefix "ext:time." (Effects.c_callee c) || String.prefix "ext:os." (Effects.c_callee c)) Effects.eff_calls)
   = [("randomUint32", "ext:crypto/rand.Read")] /\
-  map Effects.c_func (filter (fun c => String.eqb (Effects.c_callee c) "randomUint32") Effects.eff_calls) = ["randomUint32n"; "randomUint32n"; "randomUint32n"].
-Proof. vm_compute. split; reflexivity. Qed.
+  (let callers := map Effects.c_func (filter (fun c => String.eqb (Effects.c_callee c) "randomUint32") Effects.eff_calls) in
+   forallb (String.eqb "randomUint32n") callers = true /\ callers <> []).
+Proof. vm_compute. split; [reflexivity|split; [reflexivity|discriminate]]. Qed.
 (** the buffer the bytes are read into is memory of that one activation (never a buffer another draw or goroutine can see),
     and the functions between the source and the generators write nothing else *)
 Theorem C09_private_buffer :
